@@ -206,10 +206,84 @@ def stored_merge(ctx, n):
         stored_case(ctx, odb, base, derive(base), derive(base), rng.choice(POLICIES))
 
 
+def stored_merge_with_meta(ctx, n):
+    """real merge() on a legacy (md5-dos2unix) store whose directory listings carry per-entry metadata: a side may change only
+    the metadata of an entry (exec bit, size) - that is a change like any other for the three-way rule and for the policy"""
+    import os
+
+    from dvc_objects.fs.local import LocalFileSystem
+
+    from dvc_data.hashfile import load
+    from dvc_data.hashfile.db import HashFileDB
+    from dvc_data.hashfile.hash_info import HashInfo
+    from dvc_data.hashfile.meta import Meta
+    from dvc_data.hashfile.tree import MergeError, Tree, merge
+
+    rng = ctx.rng
+    odb = HashFileDB(LocalFileSystem(), os.path.join(ctx.mkdtemp(), "odb"), hash_name="md5-dos2unix")
+    keys = [("a",), ("run.sh",), ("d", "c"), ("d", "e", "f")]
+
+    def rv():
+        return hashlib.md5(rng.choice(["1", "2", "3"]).encode()).hexdigest()
+
+    def store(d):
+        tr = Tree()
+        for k, (ex, h) in d.items():
+            tr.add(k, Meta(size=7, isexec=ex), HashInfo("md5-dos2unix", h))
+        tr.digest(with_meta=True)
+        odb.add(tr.path, tr.fs, tr.oid)
+        return tr
+
+    def derive(base):
+        d = dict(base)
+        for k in keys:
+            r = rng.random()
+            if k in d:
+                if r < 0.2:
+                    d[k] = (d[k][0], rv())            # content change
+                elif r < 0.45:
+                    d[k] = (not d[k][0], d[k][1])     # metadata-only change
+                elif r < 0.5:
+                    del d[k]
+            elif r < 0.2:
+                d[k] = (rng.random() < 0.5, rv())
+        return d
+
+    def view(dd):
+        return {k: (bool(v[0].isexec) if v[0] is not None else None, v[1].value if v[1] is not None else None) for k, v in dd.items()}
+
+    for _ in range(n):
+        base = {k: (rng.random() < 0.3, rv()) for k in keys if rng.random() < 0.8}
+        od, td = derive(base), derive(base)
+        al = rng.choice(POLICIES)
+        a, o, t = store(base), store(od), store(td)
+        if len({a.oid, o.oid, t.oid}) < 3 and rng.random() < 0.7:
+            continue  # identifiers ignore metadata: equal identifiers mean the same stored object
+        case = {"stored_with_meta": True, "a": {"/".join(k): list(v) for k, v in base.items()}, "o": {"/".join(k): list(v) for k, v in od.items()},
+                "t": {"/".join(k): list(v) for k, v in td.items()}, "allowed": al}
+        ctx.case(case)
+        la, lo, lt = (view(load(odb, x.hash_info).as_dict()) for x in (a, o, t))
+        kind, res = safe_call(lambda: merge(odb, a.hash_info, o.hash_info, t.hash_info, allowed=al or None), expected=(MergeError,))
+        exp, conflicts = three_way(la, lo, lt)
+        if kind == "ok":
+            got = view(res.as_dict())
+            ctx.oracle(not conflicts and got == exp, case, {"why": "merge with per-entry metadata is not the three-way merge", "impl": {"/".join(k): list(v) for k, v in got.items()},
+                                                           "three_way": {"/".join(k): list(v) for k, v in exp.items()}, "conflicts": ["/".join(k) for k in conflicts]})
+            if not al or al == ["add"]:
+                both = lo != la and lt != la
+                only_adds = all(k not in la or lo.get(k) == la[k] for k in set(la) | set(lo)) and all(k in lo for k in la) and \
+                    all(k not in la or lt.get(k) == la[k] for k in set(la) | set(lt)) and all(k in lt for k in la)
+                ctx.oracle((not both) or only_adds, case, {"why": "default policy accepted a merge in which a side did more than add entries"})
+            ctx.count("stored_meta:ok")
+        else:
+            ctx.oracle(res == "MergeError", case, {"impl": res, "why": "unexpected exception"})
+            ctx.count("stored_meta:" + res)
+
+
 def run(ctx):
     ctx.rule = (
         "exhaustive: all (ancestor, ours, theirs) over 3 keys (one nested) x {absent,v1,v2} x policies through the real _merge; "
-        "random: derived triples over 11 keys; stored: real merge() of stored trees. non-trivial = both sides differ from the ancestor; "
+        "random: derived triples over 11 keys; stored: real merge() of stored trees, also on a legacy store whose listings carry per-entry metadata (metadata-only changes). non-trivial = both sides differ from the ancestor; "
         "distinct = sha256 of the canonical case"
     )
     ctx.assumptions = ["dictdiffer treats tuples as atomic values (checked by the exhaustive tie)"]
@@ -221,6 +295,7 @@ def run(ctx):
         ctx.exhaustive["merge 27^3 triples x 2 policies (default, all)"] = True
     random_cases(ctx, ctx.n(3000, 40000))
     stored_merge(ctx, ctx.n(150, 1500))
+    stored_merge_with_meta(ctx, ctx.n(200, 2000))
 
 
 def search(ctx):
